@@ -16,7 +16,7 @@ RULE = ("assertion kind (eq, ne, lt, le, gt, ge with secret or constant second o
         "(accepted => satisfiable) and S == A (the in-circuit relation is the run-time one: same bounds, same width). "
         "Fixed-point assertions are also given non-finite float bounds (nan, inf, -inf; relation = Python float comparison). Non-trivial = window has values on both sides of R and S is neither empty nor full; distinct by "
         "(kind, parameters, field, bitlength).")
-RULE += " Extensions (seeded rounds 10-15): non-finite float bounds, plain array entries (also with errors ignored for kinds that are never accepted), arrays of different lengths, assertions after a refused float bound, assertions on outputs of divisions and of from_bits over raw wires, widths beyond 64 bits."
+RULE += " Extensions (seeded rounds 10-15): non-finite float bounds, plain array entries (also with errors ignored for kinds that are never accepted), arrays of different lengths, assertions after a refused float bound, assertions on outputs of divisions and of from_bits over raw wires, widths beyond 64 bits, float bounds next to whole numbers on integer assertions."
 
 
 
@@ -64,6 +64,14 @@ def kinds(b):
         K.append(Kind("assert_%s(x,secret fxp)" % nm, 2,
                       (lambda n: lambda ns, ops, prm: getattr(ops[0], "assert_" + n)(ns.fx.LinCombFxp(ops[1], False)))(nm),
                       (lambda r: lambda v, prm: r(v[0] * (1 << env.bind().fx.resolution), v[1]))(rel)))
+    # integer assertions with a FLOAT bound (a percentage, a computed threshold: 0.29 * 100 is 28.999999999999996): either
+    # refused (today: "Wrong type for LinComb") or the relation Python gives between the integer and that float
+    nearly = [1 - 2 ** -53, 1 + 2 ** -52, 3 - 1e-10, 2 + 1e-10, 1.5, 2.0, -1e-10, 0.29 * 100 - 27, -1.0 + 1e-12]
+    for nm, rel in cmpops:
+        K.append(Kind("assert_%s(x,float const)" % nm, 1, (lambda n: lambda ns, ops, prm: getattr(ops[0], "assert_" + n)(prm))(nm),
+                      (lambda r: lambda v, prm: r(v[0], prm))(rel), params=nearly))
+    K.append(Kind("assert_range(x,float bounds)", 1, lambda ns, ops, prm: ops[0].assert_range(prm[0], prm[1]),
+                  lambda v, prm: prm[0] <= v[0] < prm[1], params=[(1 - 2 ** -53, 3), (0, 3 - 1e-10), (0.5, 2.5), (1 + 1e-10, 3.0)]))
     K.append(Kind("assert_range(x,fxp bounds)", 2,
                   lambda ns, ops, prm: ops[0].assert_range(ns.fx.LinCombFxp(ops[1], False), ns.fx.LinCombFxp(ops[1] + 2 * (1 << ns.fx.resolution), False)),
                   lambda v, prm: v[1] <= v[0] * (1 << env.bind().fx.resolution) < v[1] + 2 * (1 << env.bind().fx.resolution)))
